@@ -115,6 +115,17 @@ package socks5
 //@ struct callers runUDPAssociateDatagramLoop = {Server.handleAssociateDatagram}
 //@   property C12
 
+//@ // The per-datagram filter itself (C12): a datagram whose destination is a loopback address,
+//@ // the unspecified address (which the host delivers to itself) or has no address at all is
+//@ // let through only for a user who may reach the loopback; a private destination only for a
+//@ // user who may reach private addresses (or the loopback, when it is both).
+//@ func (s *Server) udpDestinationFilter__closure1(dst *net.UDPAddr) (ok bool)
+//@   property C12
+//@   mode int
+//@   requires dst != nil && s != nil && s.config != nil
+//@   ensures [C12] ok && (len(dst.IP) == 0 || ipLoopback(dst.IP) || ipUnspecified(dst.IP)) ==> userMayLoopback(s, in)
+//@   ensures [C12] ok && len(dst.IP) != 0 && ipPrivate(dst.IP) && !(ipLoopback(dst.IP) || ipUnspecified(dst.IP)) ==> userMayPrivate(s, in)
+//@
 //@ // The relay loops themselves (function literals run as goroutines; verified one by one,
 //@ // the captured variables being arbitrary): a datagram from the client is handed to
 //@ // WriteToUDP only if no filter is installed or the filter was asked about exactly this
@@ -143,3 +154,34 @@ package socks5
 //@
 //@ func udpAddrToHeader(addr *net.UDPAddr) (h []byte)
 //@   trusted serialises through bytes.Buffer/io.Writer (outside the subset); result unconstrained here
+
+//@ // Placement of the negotiation (C11): where the listener negotiates (client side with
+//@ // ClientSideAuthentication, server side without it), nothing that reads or forwards the
+//@ // application's request - dialling the proxy, relaying the method negotiation, reading or
+//@ // relaying the request - is reached unless handleAuthentication returned success.
+//@ func (s *Server) clientServeConn(userConn net.Conn) (r error)
+//@   property C11
+//@   mode int
+//@   partial
+//@   posts_only
+//@   noframe
+//@   may_panic
+//@   requires s != nil && s.config != nil
+//@   sets ghost(authres) = 0
+//@   ghost_call Server.handleAuthentication: ghost(authres) = ite(result0 == nil, 1, 2)
+//@   assert_call ProxyDialer.DialContext: [C11] !s.config.AuthOpts.ClientSideAuthentication || ghost(authres) == 1
+//@   assert_call Server.proxySocks5ConnReq: [C11] !s.config.AuthOpts.ClientSideAuthentication || ghost(authres) == 1
+//@   assert_call Server.proxySocks5AuthReq: [C11] !s.config.AuthOpts.ClientSideAuthentication && ghost(authres) == 0
+//@
+//@ func (s *Server) serverServeConn(proxyConn net.Conn) (r error)
+//@   property C11
+//@   mode int
+//@   partial
+//@   posts_only
+//@   noframe
+//@   may_panic
+//@   requires s != nil && s.config != nil
+//@   sets ghost(authres) = 0
+//@   ghost_call Server.handleAuthentication: ghost(authres) = ite(result0 == nil, 1, 2)
+//@   assert_call Server.readRequest: [C11] s.config.AuthOpts.ClientSideAuthentication || ghost(authres) == 1
+
